@@ -95,6 +95,14 @@ def build(rng, spec, depth, tr, ctx):
         slot = rng.choice(own)
         c2 = dict(ctx)
         c2["specd"] = c2.get("specd", []) + [slot]
+        if rng.random() < spec.get("p_call_before_spec", 0):
+            # the creator first computes the specifiable function on the new struct, then specifies it
+            # (the computed value wins this revision)
+            sidx = tr.add(None)
+            kids = [build(rng, spec, depth - 1, tr, c2)]
+            tr.nodes[sidx - 1] = node("spec", slot, rng.randrange(nv), 0, kids)
+            tr.nodes[idx - 1] = node("calls", 3, slot, 0, [sidx] * nv)
+            return idx
         kids = [build(rng, spec, depth - 1, tr, c2)]
         tr.nodes[idx - 1] = node("spec", slot, rng.randrange(nv), 0, kids)
     elif op == "intern":
@@ -146,9 +154,11 @@ def gen_program(rng, family="core", nfn=None):
         "untracked": ["plain", "plain", "noeq"],
         "lru": ["lru", "lru", "plain"],
         "struct": ["plain", "plain", "q2"],
+        "structlru": ["lru", "lru", "plain"],
         "spec": ["plain"],
         "intern": ["plain", "plain"],
         "accum": ["plain", "plain", "noeq", "q2"],
+        "accumlru": ["lru", "plain", "lru", "noeq"],
         "churn": ["plain", "plain", "q2"],
         "mixed": ["plain", "noeq", "lru", "q2"],
         "persist": ["pplain", "pplain", "pnp", "pnoeq"],
@@ -159,9 +169,11 @@ def gen_program(rng, family="core", nfn=None):
         "untracked": ["in", "call", "call", "cell", "cell", "untr"],
         "lru": ["in", "in", "call", "call"],
         "struct": ["in", "in", "call", "new", "new", "fld", "fld", "calls", "untr"],
+        "structlru": ["in", "in", "call", "new", "new", "fld", "fld", "calls"],
         "spec": ["in", "in", "call", "new", "new", "fld", "calls", "spec", "spec"],
         "intern": ["in", "in", "call", "intern", "intern", "rdint", "calli"],
         "accum": ["in", "in", "call", "call", "acc", "acc"],
+        "accumlru": ["in", "in", "call", "call", "acc", "acc"],
         "churn": ["in", "in", "in", "call", "call", "intern", "intern", "intern", "rdint", "calli", "new", "fld"],
         "mixed": ["in", "in", "call", "call", "cell", "new", "fld", "calls", "intern", "rdint", "acc"],
         "persist": ["in", "in", "call", "call"],
@@ -177,9 +189,9 @@ def gen_program(rng, family="core", nfn=None):
             have_q0 = True
         callees = list(range(j + 1, nfn + 1))
         ops_j = base_ops
-        if family == "accum" and callees and rng.random() < 0.6:
+        if family in ("accum", "accumlru") and callees and rng.random() < 0.6:
             callees = [j + 1]          # chains: root -> mid -> leaf
-        if family == "accum":
+        if family in ("accum", "accumlru"):
             # upper functions mostly call, the lowest ones accumulate depending on inputs
             ops_j = ["in", "call", "call", "call", "acc"] if j < nfn - 1 else ["in", "in", "acc", "acc"]
             if rng.random() < 0.5 and j < nfn - 1:
@@ -191,6 +203,7 @@ def gen_program(rng, family="core", nfn=None):
             "ikinds": [1, 1, 2, 3, 4] if family == "intern" else ([1, 1, 1, 1, 2, 2] if family == "churn" else [1, 2, 3, 4]),
             "nint": 5 if family == "churn" else 3,
             "nident": 3 if family == "churn" else 2,
+            "p_call_before_spec": 0.3 if family == "spec" else 0,
         }
         tr = Tree()
         if family == "churn":
@@ -200,7 +213,7 @@ def gen_program(rng, family="core", nfn=None):
             tr.nodes[root - 1] = node("in", rng.randrange(nin) + 1, rng.randrange(2) + 1, 0, kids)
         else:
             build(rng, spec, rng.choice([2, 3, 3, 4]), tr, {"nh": 0, "ni": 0})
-        if family == "accum" and rng.random() < 0.5:
+        if family in ("accum", "accumlru") and rng.random() < 0.5:
             # equal results on every path: re-executions are backdated, only the accumulated values differ
             for nd in tr.nodes:
                 if nd["op"] == "ret":
@@ -210,9 +223,15 @@ def gen_program(rng, family="core", nfn=None):
         exports[j] = max_exports(tr.nodes) + (sum(exports.get(g, 0) for g in callees) if fwd else 0)
     sfns = []
     for m in (1, 2, 3):
-        spec = {"nv": nv, "nin": nin, "ncell": 0, "callees": [], "ops": ["in", "fld", "fld"], "p_leaf": 0.3}
+        spec = {"nv": nv, "nin": nin, "ncell": 0, "callees": [], "p_leaf": 0.3,
+                "ops": ["in", "fld", "fld", "untr"] if family == "spec" else ["in", "fld", "fld"]}
         tr = Tree()
-        build(rng, spec, 2, tr, {"nh": 1, "ni": 0})
+        if family == "spec" and m == 3 and rng.random() < 0.4:
+            # the specifiable function's own body starts with an untracked read
+            root = tr.add(None)
+            tr.nodes[root - 1] = node("untr", 0, 0, 0, [build(rng, spec, 2, tr, {"nh": 1, "ni": 0})])
+        else:
+            build(rng, spec, 2, tr, {"nh": 1, "ni": 0})
         sfns.append({"kind": "sspec" if m == 3 else "splain", "init": 0, "nodes": tr.nodes})
     ifns = []
     spec = {"nv": nv, "nin": nin, "ncell": 0, "callees": [], "ops": ["in", "rdint", "rdint"], "p_leaf": 0.3, "nint": 3}
@@ -222,7 +241,7 @@ def gen_program(rng, family="core", nfn=None):
     return {
         "nv": nv, "inputs": inputs, "cells": [rng.randrange(nv) for _ in range(ncell)],
         "fns": fns, "sfns": sfns, "ifns": ifns,
-        "lru_cap": rng.choice([1, 2, 2, 3]) if family in ("lru", "mixed") else 2,
+        "lru_cap": rng.choice([1, 2, 2, 3]) if family in ("lru", "mixed") else (rng.choice([0, 1, 1, 2]) if family in ("structlru", "accumlru") else 2),
     }
 
 
@@ -427,6 +446,34 @@ def gen_nested_fix_program(rng, ncons=0, nleaf=0):
         nodes = [node("in", i, f, 0, [2, 3]), node("orc", c0, 0, 0, [4]), node("orc", c1, 0, 0, [4]), node("retr")]
         fns.append({"kind": "plain", "init": 0, "fwd": 0, "nodes": nodes})
     return {"nv": full + 1, "inputs": inputs, "cells": [], "fns": fns, "sfns": [], "ifns": [], "lru_cap": 2}
+
+
+def gen_parlru_program(rng):
+    """C16 with eviction: two or three plain consumers share an `lru` function above an input-reading leaf;
+    further `lru` functions push its value out of the (capacity 1-2) LRU between rounds."""
+    nv = 2
+    inputs = [[[rng.randrange(2), 0], [rng.randrange(2), 0]]]
+    ntop = rng.choice([2, 2, 3])
+    nother = rng.choice([1, 2])
+    mid = ntop + 1
+    leaf = ntop + 2
+    fns = []
+    for _ in range(ntop):
+        # consumer: value of mid decides the result (possibly combined with an input)
+        if rng.random() < 0.5:
+            nodes = [node("call", mid, 0, 0, [2, 3]), node("ret", 0), node("ret", 1)]
+        else:
+            nodes = [node("call", mid, 0, 0, [2, 3]), node("in", 1, 2, 0, [4, 5]), node("ret", 1), node("ret", 0), node("ret", 1)]
+        fns.append({"kind": rng.choice(["plain", "plain", "noeq"]), "init": 0, "fwd": 0, "nodes": nodes})
+    fns.append({"kind": "lru", "init": 0, "fwd": 0, "nodes": [node("call", leaf, 0, 0, [2, 3]), node("ret", 0), node("ret", 1)]})
+    fns.append({"kind": "plain", "init": 0, "fwd": 0,
+                "nodes": [node("in", 1, 1, 0, [2, 3]), node("in", 1, 2, 0, [4, 5]), node("ret", 1), node("ret", 0), node("ret", 1)]})
+    for _ in range(nother):
+        fns.append({"kind": "lru", "init": 0, "fwd": 0, "nodes": [node("in", 1, 2, 0, [2, 3]), node("ret", 0), node("ret", 1)]})
+    sf = {"kind": "splain", "init": 0, "nodes": [node("ret", 0)]}
+    return {"nv": nv, "inputs": inputs, "cells": [], "fns": fns, "sfns": [sf, sf, dict(sf, kind="sspec")],
+            "ifns": [{"kind": "iplain", "init": 0, "nodes": [node("ret", 0)]}], "lru_cap": rng.choice([1, 1, 2]),
+            "_ntop": ntop, "_nother": nother}
 
 
 def gen_xthread_program(rng):
@@ -736,15 +783,20 @@ def gen_history(rng, prog, nops, family="core"):
     nv = prog["nv"]
     hist = []
     w = {"get": 6, "set": 4, "synth": 1, "cell": 2 if ncell else 0, "lru": 0, "evict": 0, "accum": 0, "gets": 0, "persist": 2 if family == "persist" else 0}
-    if family in ("lru", "mixed"):
+    if family in ("lru", "mixed", "structlru"):
         w["lru"] = 1
         w["evict"] = 1
         w["get"] = 8
-    if family in ("accum",):
+    if family in ("accum", "accumlru"):
         w["accum"] = 8
         w["get"] = 2
         w["set"] = 6
-    if family in ("struct", "spec", "mixed", "churn"):
+    if family == "accumlru":
+        w["lru"] = 1
+        w["evict"] = 1
+        w["get"] = 4
+        w["synth"] = 3
+    if family in ("struct", "structlru", "spec", "mixed", "churn"):
         w["gets"] = 3
     if family == "churn":
         w["set"] = 8
@@ -868,7 +920,7 @@ def gen_par_jobs(seed, njobs, family, nrounds=3):
     rng = random.Random(seed)
     jobs = []
     base = {"pardag": "dur", "parfix": "fix", "parfb": "fb", "parpcycle": "pcycle", "parintern": "churn",
-            "parstruct": "struct", "parcancel": "dur", "parwrite": "dur", "parwritefix": "fix", "parwritenest": "fix", "parcancelfix": "fix", "parcancelnest": "fix", "parnest3": "fix", "parpaniccancel": "fix", "parpanic": "dur", "parmemo": "struct", "paralloc": "struct"}[family]
+            "parstruct": "struct", "parcancel": "dur", "parwrite": "dur", "parwritefix": "fix", "parwritenest": "fix", "parcancelfix": "fix", "parcancelnest": "fix", "parnest3": "fix", "parpaniccancel": "fix", "parlru": "lru", "parpanic": "dur", "parmemo": "struct", "paralloc": "struct"}[family]
     for n in range(njobs):
         if family == "paralloc":
             # C24: concurrent creation of inputs, interned values and tracked structs across page boundaries (128 slots)
@@ -897,6 +949,32 @@ def gen_par_jobs(seed, njobs, family, nrounds=3):
                 rounds.append({"pre": [], "threads": threads, "writer": [], "cancels": [], "writer_after": 0})
             jobs.append({"id": n + 1, "prog": prog, "hist": [], "inject": 0, "seed": seed * 100003 + n, "mode": family,
                          "rounds": rounds, "jitter": rng.choice([0, 5, 30])})
+            continue
+        if family == "parlru":
+            prog = gen_parlru_program(rng)
+            ntop, nother = prog.pop("_ntop"), prog.pop("_nother")
+            mid, leaf = ntop + 1, ntop + 2
+            rounds = []
+            cur = prog["inputs"][0][0][0]
+            for r in range(nrounds + 1):
+                pre = []
+                if r == 0:
+                    pre = [{"op": "get", "f": t + 1} for t in range(ntop)]
+                # use the other lru keys (the shared one becomes the least recently used), then write the leaf's input:
+                # its value is evicted when the new revision starts
+                pre += [{"op": "get", "f": leaf + 1 + o} for o in range(nother)]
+                if rng.random() < 0.85:
+                    cur = 1 - cur
+                    pre.append({"op": "set", "i": 1, "f": 1, "v": cur, "d": -1})
+                else:
+                    pre.append({"op": "synth", "d": 0})
+                tops = list(range(1, ntop + 1))
+                rng.shuffle(tops)
+                threads = [[{"op": "get", "f": tops[t % ntop]}] + ([{"op": "get", "f": rng.choice(tops + [mid])}] if rng.random() < 0.4 else [])
+                           for t in range(rng.choice([2, 3, 3]))]
+                rounds.append({"pre": pre, "threads": threads, "writer": [], "cancels": [], "writer_after": 0})
+            jobs.append({"id": n + 1, "prog": prog, "hist": [], "inject": 0, "seed": seed * 100003 + n, "mode": family,
+                         "rounds": rounds, "jitter": rng.choice([50, 200, 500, 1000])})
             continue
         if family == "parmemo":
             # several tracked functions keyed on the same (fresh) struct instance, first executed concurrently
